@@ -13,6 +13,7 @@ RULE = ("exhaustive: every trajectory over {0,1,2,NaN} of length <= L (quick 5, 
         "plus sequences of 2-6 requests on ONE MSM object (single lags and get_all_tau arrays with repeated / fractional lags); "
         "a case is non-trivial when at least one window is counted; distinct by (trajectory, n, tau, mode)")
 CHUNK = 3000
+PARALLEL = 12   # thorough tier: fork pool for the implementation side
 
 
 def cases(ctx):
